@@ -70,6 +70,119 @@ class C05(RD):
         return 12
 
 
-REGISTRY = {"C04": C04, "C05": C05}
+class PIO(SeqCheck):
+    harness = "pio"
+    hbin = "h_pio"
+    model_entry = "pio_model"
+    oracle_entry = "pio_oracle"
+    overlay = {"packetio/verif_export.go": "packetio/verif_export.go"}
+    quick_n = 1200
+    thorough_n = 40000
+    shards = 12
+    stack_unlimited = True
+    rule = ("sequential histories of Write/Read/SetLimitCount/SetLimitSize/Close/Count/Size on a real packetio.Buffer; "
+            "the generator reads the ring indices through an overlay-added accessor and steers packet lengths so that "
+            "headers and payloads land on/around the ring end, occupancy hits ring size-1 and every growth size, limits sit "
+            "around growth sizes and the 4 MiB cap; writer slices are overwritten after Write, reader slices carry guard "
+            "bytes; non-trivial = at least 3 accepted writes and 3 reads that returned a packet; distinct = distinct operation list")
+    trusted = ["overlay file harness/overlay/packetio/verif_export.go (read-only accessor, build tag verif)",
+               "payloads longer than 32 bytes are compared by (sum, position-weighted sum), not byte by byte"]
+    assumptions = ["default build (sizeHardLimit=false)", "sequential use; blocking reads are C08",
+                   "histories whose ring grows beyond 400000 bytes are replayed on the FIFO Spec (Coq-proved equal to the ring model) instead of the ring model"]
+
+    def model_entry_for(self, conf):
+        return "pio_spec" if conf.strip() == "1" else "pio_model"
+
+    def is_nontrivial(self, conf, ops, obs):
+        o = segs(obs)
+        p = segs(ops)
+        w = sum(1 for a, b in zip(p, o) if (a.startswith("8 ") or a.startswith("1 ") or a == "1") and b == "0")
+        r = sum(1 for a, b in zip(p, o) if a.startswith("2 ") and (b.startswith("0 ") or b.startswith("1 ")))
+        return w >= 3 and r >= 3
+
+    def gen_args(self, tier):
+        return []
+
+    def code_legend(self):
+        return ("flags (summed): 1 = a Read differs from the FIFO of accepted packets, or a too-big/after-Close write was not "
+                "refused (C06); 2 = Count/Size wrong or a buffer-full decision differs from the limit rule (C07)")
+
+
+class C06(PIO):
+    pid = "C06"
+    design_ref = "4 (C06/C07)"
+    technique = "Coq refinement proof (ring buffer model refines a FIFO for all histories) + differential correspondence check against the Go code"
+    level_text = ("Coq theorems about an executable model of the ring (data/head/tail, growth, wrap, reset) stating that for "
+                  "every history its answers are those of a FIFO of packets; tied to packetio.Buffer by differential histories "
+                  "on every run (ring model) and by the extracted FIFO oracle applied to the implementation's answers")
+    level_note = ("trusted: Coq kernel, extraction + driver, harness; sequential histories only (atomicity of each operation "
+                  "under the mutex is argued in C08); default build")
+
+    def oracle_codes_for(self, pid):
+        return 1
+
+
+class C07(PIO):
+    pid = "C07"
+    design_ref = "4 (C06/C07)"
+    technique = "Coq proof (exact Count/Size and refusal thresholds of the ring model for all histories) + differential correspondence check against the Go code"
+    level_text = ("Coq theorems: the ring model's Count/Size and buffer-full decisions equal those of the FIFO Spec with the "
+                  "literal thresholds (count limit, size limit, 4 MiB cap) for every history; tied to the code as for C06")
+    level_note = C06.level_note
+
+    def oracle_codes_for(self, pid):
+        return 2
+
+
+class C20(SeqCheck):
+    pid = "C20"
+    diff_is_violation = True
+    harness = "xor"
+    hbin = "h_xor"
+    model_entry = "xor_model"
+    oracle_entry = None
+    quick_n = 24000
+    thorough_n = 600000
+    shards = 12
+    design_ref = "4 (C20)"
+    technique = "Coq proof (loop invariant over all memories, offsets, lengths and permitted aliasings) + differential correspondence check on two builds"
+    level_text = ("Coq theorem C20_xor_spec about an executable model of xor_old.go (word loop + byte tail over a flat memory with "
+                  "(offset,length) views): returns min(len a, len b), dst[i] = a[i]^b[i], every other byte unchanged, for all "
+                  "alignments and dst==a / dst==b; tied to the code by running the real XorBytes (default build = crypto/subtle, and "
+                  "xor_old.go forced in through an overlay) on generated memory images and comparing the whole memory afterwards")
+    level_note = ("trusted: Coq kernel, extraction + driver, harness; xor_generic.go reduces to crypto/subtle.XORBytes (stdlib, only "
+                  "tested here); xor_arm.go/xor_arm.s cannot run on this machine and are not covered; the word loop is modelled as "
+                  "8 byte loads, xor, 8 byte stores (amd64 word size)")
+    rule = ("memory image of 96..159 random bytes, 1-4 XorBytes calls on (offset,length) views: lengths 0..40 around word multiples, "
+            "all offsets mod 8, layouts dst==a, dst==b, dst==a==b, a==b, all disjoint in any order; observation = n and the entire "
+            "memory after each call (so frame violations show); non-trivial = a call with n >= 1; distinct = distinct (memory, calls)")
+    trusted = ["overlay: xor_generic.go removed and xor_old.go compiled under tag verif instead of its (!go1.20 && !arm) || gccgo constraint "
+               "(generated from /repo's xor_old.go at check time)"]
+    assumptions = ["dst is at least min(len a, len b) long (shorter dst panics, outside the property)",
+                   "partial overlaps between dst and a source are outside the property"]
+
+    def variants(self):
+        return [("h_xor", ["-mode", "1"]), ("h_xor_old", ["-mode", "2"])]
+
+    def build(self):
+        os.makedirs(BIN, exist_ok=True)
+        wd = os.path.join(WORK, self.pid)
+        os.makedirs(wd, exist_ok=True)
+        src = open(os.path.join(REPO, "utils/xor/xor_old.go")).read()
+        src = re.sub(r"(?m)^//go:build.*$", "//go:build verif", src, count=1)
+        open(os.path.join(wd, "xor_old_verif.go"), "w").write(src)
+        ov = os.path.join(wd, "overlay_old.json")
+        json.dump({"Replace": {os.path.join(REPO, "utils/xor/xor_generic.go"): "",
+                               os.path.join(REPO, "utils/xor/xor_old.go"): os.path.join(wd, "xor_old_verif.go")}}, open(ov, "w"))
+        hd = os.path.join(VERIF, "harness", "xor")
+        return (go_build(hd, os.path.join(BIN, "h_xor")) and
+                go_build(hd, os.path.join(BIN, "h_xor_old"), tags="verif", overlay=ov))
+
+    def is_nontrivial(self, conf, ops, obs):
+        o = segs(obs)
+        return any(x and not x.startswith("0 ") and x != "0" for x in o[1:])
+
+
+REGISTRY = {"C04": C04, "C05": C05, "C06": C06, "C07": C07, "C20": C20}
 
 NOT_CLAIMED = {}
